@@ -10,6 +10,7 @@ VARIANTS = [
     ("int,flat,m2", {"integer": True, "fee": "flat", "spread": None, "mult": {"a": 2}}),
     ("frac,none,spread", {"integer": False, "fee": None, "spread": 0.5, "mult": {}}),
     ("frac,selllevy", {"integer": False, "fee": "selllevy", "spread": None, "mult": {}}),
+    ("frac,rebate,m2", {"integer": False, "fee": "rebate", "spread": None, "mult": {"a": 2}}),
 ]
 
 
@@ -45,10 +46,12 @@ def configs(prop, tier, seed):
             plan.append(("T3", VARIANTS[2 + seed % 3], 2, "exact"))
             plan.append(("MC", VARIANTS[(seed + 1) % 2], 3, "exact"))
             plan.append(("T1", VARIANTS[6], 3, "exact"))
+            plan.append(("T2", VARIANTS[7], 2, "exact"))
             plan.append(("T1", VARIANTS[(seed + 3) % len(VARIANTS)], 3, "zero"))
             plan.append(("T1", VARIANTS[(seed + 4) % len(VARIANTS)], 3, "zero2"))
             plan.append(("T1", VARIANTS[1 + (seed % 2) * 2], 3, "spreadpath"))
         plan.append(("T1", VARIANTS[(seed + 2) % 6], 3, "dormant"))
+        plan.append(("T1", VARIANTS[(seed + 3) % 6], 2, "seeded"))
     else:
         plan = []
         for v in VARIANTS:
@@ -68,6 +71,8 @@ def configs(prop, tier, seed):
         plan.append(("T2", VARIANTS[2], 3, "spreadpath"))
         for v in VARIANTS[:3]:
             plan.append(("T1", v, 3, "dormant"))
+            plan.append(("T1", v, 3, "seeded"))
+        plan.append(("T2", VARIANTS[0], 2, "seeded"))
         if prop in ("C02", "C07"):
             for v in VARIANTS[:4]:
                 plan.append(("F1", v, 3, "exact"))
@@ -76,6 +81,8 @@ def configs(prop, tier, seed):
             for v in (VARIANTS[0], VARIANTS[1], VARIANTS[4]):
                 plan.append(("MC", v, 4, "exact"))
             plan.append(("T2", VARIANTS[6], 3, "exact"))
+            plan.append(("T1", VARIANTS[7], 3, "exact"))
+            plan.append(("T2", VARIANTS[7], 3, "exact"))
     for shape, (vn, v), depth, al in plan:
         spec = dict(v, shape=shape, alpha=al, capital=64.0, ndates=4)
         if al == "zero":
@@ -92,6 +99,9 @@ def configs(prop, tier, seed):
             spec["alpha"] = "exact"
             spec["prices"] = {"a": [4.0, 0.0, 0.0, 2.0], "b": [1.0, 2.0, 0.0, 1.0]}
             spec["preops"] = [["transact", [], "a", 3.0], ["next"]]
+        if al == "seeded":
+            spec["alpha"] = "exact"
+            spec["seed_before_setup"] = 16.0
         if al == "dormant":
             # a security that was held, closed and then skipped for two dates; every op is preceded by a
             # read of every node's weight and value, leaves first
